@@ -87,6 +87,7 @@ type Interp struct {
 	blobDistinct bool
 	blobOfStr    map[*Term]*Blob
 	pinned       map[*Term]uint64 // terms whose value is fixed on this path by a value case-split
+	altTerms     map[*Term]bool   // primed copies made by vf.NoLeak (excluded from injectivity axioms)
 }
 
 func (in *Interp) addPC(t *Term) {
@@ -372,7 +373,15 @@ func (in *Interp) branch(fr *frame, site ssa.Instruction, c *Term) bool {
 		}
 	}
 	if os.Getenv("GOSX_BRANCHLOG") != "" && len(in.taken) >= len(in.prefix) {
-		fmt.Fprintf(os.Stderr, "BRANCH %s\n", in.stack())
+		where := ""
+		if site != nil {
+			where = in.P.prog.Fset.Position(site.Pos()).String()
+		}
+		cs := in.ts.Print(c)
+		if len(cs) > 300 {
+			cs = cs[:300]
+		}
+		fmt.Fprintf(os.Stderr, "BRANCH %s %s :: %s\n", where, in.stack(), cs)
 	}
 	return in.fork("if", []*Term{c, in.ts.Not(c)}) == 0
 }
@@ -1283,6 +1292,31 @@ func (in *Interp) sliceOp(fr *frame, x *ssa.Slice) Value {
 			if lo.IsConst() && lo.u == 0 && hi == n {
 				return s
 			}
+			// a concatenation cut exactly at a part boundary (prefix of known length, or the rest after it)
+			if str := in.blobStr(s.Blob); str.op == OSConcat && lo.IsConst() && (hi == n || hi.IsConst()) {
+				cut := func(at uint64) int {
+					var sum int64
+					for j, p := range str.args {
+						if sum == int64(at) {
+							return j
+						}
+						l := ts.SLen(p)
+						if !l.IsConst() {
+							return -1
+						}
+						sum += l.i
+					}
+					return -1
+				}
+				if j := cut(lo.u); j >= 0 {
+					if hi == n {
+						return in.strToBytes(ts.SConcat(str.args[j:]...))
+					}
+					if k := cut(hi.u); k >= j {
+						return in.strToBytes(ts.SConcat(str.args[j:k]...))
+					}
+				}
+			}
 			return SliceV{Blob: in.strBlob(ts.SSubstr(in.blobStr(s.Blob), ts.SBv2Int(lo), ts.SBv2Int(ts.BvSub(hi, lo))))}
 		}
 		r := in.sliceOf(s.A, lo, hi, max)
@@ -1655,8 +1689,9 @@ func (in *Interp) callBuiltin(fr *frame, b *ssa.Builtin, args []Value, site ssa.
 func (in *Interp) appendSlices(s, y SliceV) Value {
 	if s.Blob != nil || y.Blob != nil {
 		if len(s.A) == 0 && s.Blob == nil {
-			// append(empty, blob...) == copy of blob
-			return SliceV{Blob: y.Blob}
+			// append(empty, blob...) == copy of blob (a new content cell: the source may be a reused buffer)
+			nb := *y.Blob
+			return SliceV{Blob: &nb}
 		}
 		if len(y.A) == 0 && y.Blob == nil {
 			return s
